@@ -23,8 +23,11 @@ pub fn install_panic_hook() {
         let loc = info.location().map(|l| format!("{}:{}", l.file(), l.line())).unwrap_or_default();
         let quiet = QUIET.with(|q| *q.borrow());
         LAST_PANIC.with(|p| *p.borrow_mut() = Some(format!("{} @ {}", msg, loc)));
+        let _ = &default;
         if !quiet {
-            default(info);
+            // a panic outside `catch` is a harness bug: one line, no backtrace spam
+            let _ = &default;
+            eprintln!("harness panic: {} @ {}", msg, loc);
         }
     }));
 }
